@@ -22,6 +22,9 @@ from harness import core, tlaval
 from harness import thr_errno as T
 
 LEVEL = "model_checking"
+# short TLC runs: few GC threads and the C1 compiler only (halves the CPU time of a JVM start)
+JLIGHT = {"JAVA_TOOL_OPTIONS": "-XX:ParallelGCThreads=2 -XX:TieredStopAtLevel=1"}
+JHEAVY = {"JAVA_TOOL_OPTIONS": "-XX:ParallelGCThreads=4"}
 
 ACTIONS = ("Set", "Get", "Clobber", "CallEnter", "CSet", "CallExit", "CbEnter", "CbExit")
 VARIANTS = ("shared", "cb_nosave", "get_consumes", "glob_bare", "cb_norestore")
@@ -435,7 +438,7 @@ def validate(ctx, traces, name="Trace_Errno"):
     bad = []
     for base in range(0, len(traces), 1500):
         chunk = traces[base:base + 1500]
-        tups = core.tlc_verdicts(ctx, "Trace_Errno", chunk, name=name, timeout=1800)
+        tups = core.tlc_verdicts(ctx, "Trace_Errno", chunk, name=name, timeout=1800, extra_env=JLIGHT)
         verdicts = {int(x[0]): (core.unq(x[1]), int(x[2])) for x in tups}
         if len(verdicts) != len(chunk):
             raise core.MachineryError("trace validation incomplete: %d verdicts for %d traces" % (
@@ -566,18 +569,18 @@ def run(ctx):
     w = 2 if quick else 4
     djobs = design_jobs(ctx)
     dfut = [pool.submit(core.tlc, "Errno", cfg_text=text, workers=(1 if kind == "bad" else w), coverage=(kind == "cov"),
-                        timeout=900 if quick else 3000) for name, text, kind in djobs]
+                        timeout=900 if quick else 3000, env=JLIGHT if (quick or kind == "bad") else JHEAVY) for name, text, kind in djobs]
     gconf = graph_cfg(quick)
     dump = os.path.join(ctx.tmp, "g_" + gconf[6])
     gfut = pool.submit(core.tlc, "Errno", cfg_text=cfg(gconf[0], [], gconf[1], gconf[2], gconf[3], gconf[4], props=()),
-                       dump=dump, workers=2, timeout=1200)
+                       dump=dump, workers=2, timeout=1200, env=JLIGHT)
     sconfs = sim_cfgs(ctx)
     sfut = []
     for threads, raw, n, length, seed in sconfs:
         text = cfg(threads, raw, [0, 1, 2], T.PATHS, T.KINDS, 4, props=(), spec="SimSpec",
                    extra="  N = %d\nCONSTRAINT Emit\n" % length)
         sfut.append(pool.submit(core.tlc, "ErrnoSim", cfg_text=text, workers=1, simulate="num=%d" % n,
-                                depth=length + 5, seed=seed, timeout=900))
+                                depth=length + 5, seed=seed, timeout=900, env=JLIGHT))
     env = T.Env(ctx.tmp)
     traces, metas, divergences = [], [], []
 
